@@ -2,7 +2,7 @@
 //! properties: C12 C10
 //! note: hand-written TLV suffixes (FundedChannel, ChannelMonitor, the scorer's ChannelLiquidity): a record type that carries the same-named value on both sides carries it on both sides - the writer puts under type N the field the reader takes from type N (a writer that puts another value of the same type under N round-trips in every test whose two values happen to be equal, and silently exchanges or loses state otherwise)
 //! trusted: R21 (TLV tables): from every `write_tlv_fields!` / `encode_tlv_stream!` (writer) and `read_tlv_fields!` / `decode_tlv_stream!` (reader) invocation of a function the extractor takes the records as "TYPE:NAME" (NAME: the record's expression without `self.`, `&`, `*`; the last segment of a plain field path), in source order, restricted to the listed records (`only=`: the records whose value has the same name on both sides on the pinned tree - 34 of 52 for the channel, 20 of 24 for the monitor, 5 of 8 for the scorer; records under another name on one side - `_opt` temporaries, computed values - are outside); the lemmas state that the two lists agree
-//! plemma: C12 lemma_channel_tlv_records_carry_the_same_fields_on_both_sides: FundedChannel write / read
+//! plemma: C12 lemma_channel_tlv_records_carry_the_same_fields_on_both_sides: FundedChannel write / read (the seventeen records whose value is held in a differently named local on one side - the reader's `.._opt` options, the writer's `chan_type` / `serialized_holder_..` temporaries, `_has_0reserve`, `holding_cell_accountable` - are listed under the field's name by `alias=`)
 //! plemma: C12 lemma_monitor_tlv_records_carry_the_same_fields_on_both_sides: write_chanmon_internal / ChannelMonitor read
 //! plemma: C12 lemma_scorer_tlv_records_carry_the_same_fields_on_both_sides: ChannelLiquidity write / read
 //! plemma: C12 lemma_claimable_htlc_tlv_records_carry_the_same_fields_on_both_sides: write_claimable_htlc / (ClaimableHTLC, u64)::read: the part's previous hop, sender-intended value, total received, expiry, keysend preimage and skimmed fee travel under the same record type on both sides (the received value and the payment total are read under other names and are not in the table)
@@ -17,14 +17,18 @@ pub assume_specification<T: core::cmp::Ord>[core::cmp::max::<T>](a: T, b: T) -> 
 pub assume_specification<T: core::cmp::Ord>[core::cmp::min::<T>](a: T, b: T) -> (r: T)
     ensures T::obeys_cmp_spec() ==> r == (if b.cmp_spec(&a) == core::cmp::Ordering::Less { b } else { a });
 //@extract lightning/src/ln/channel.rs :: impl Writeable for FundedChannel :: fn write
-//@fields tlvwrite channel_tlvs_written only=0:announcement_sigs,1:minimum_depth,3:counterparty_selected_channel_reserve_satoshis,5:config,7:shutdown_scriptpubkey,8:blocked_monitor_updates,9:target_closing_feerate_sats_per_kw,10:monitor_pending_update_adds,11:monitor_pending_finalized_fulfills,12:monitor_pending_tx_signatures,13:channel_creation_height,15:preimages,17:announcement_sigs_state,19:latest_inbound_scid_alias,21:outbound_scid_alias,23:initial_channel_ready_event_emitted,25:user_id_high_opt,27:channel_keys_id,28:holder_max_accepted_htlcs,29:temporary_channel_id,31:channel_pending_event_emitted,38:is_batch_funding,43:malformed_htlcs,49:local_initiated_shutdown,51:is_manual_broadcast,53:funding_tx_broadcast_safe_event_emitted,55:removed_htlc_attribution_data,57:holding_cell_attribution_data,58:interactive_tx_signing_session,59:minimum_depth_override,60:historical_scids,61:fulfill_attribution_data,64:pending_splice,79:pending_outbound_accountable
+//@fields tlvwrite channel_tlvs_written only=0:announcement_sigs,1:minimum_depth,3:counterparty_selected_channel_reserve_satoshis,5:config,7:shutdown_scriptpubkey,8:blocked_monitor_updates,9:target_closing_feerate_sats_per_kw,10:monitor_pending_update_adds,11:monitor_pending_finalized_fulfills,12:monitor_pending_tx_signatures,13:channel_creation_height,15:preimages,17:announcement_sigs_state,19:latest_inbound_scid_alias,21:outbound_scid_alias,23:initial_channel_ready_event_emitted,25:user_id_high_opt,27:channel_keys_id,28:holder_max_accepted_htlcs,29:temporary_channel_id,31:channel_pending_event_emitted,38:is_batch_funding,43:malformed_htlcs,49:local_initiated_shutdown,51:is_manual_broadcast,53:funding_tx_broadcast_safe_event_emitted,55:removed_htlc_attribution_data,57:holding_cell_attribution_data,58:interactive_tx_signing_session,59:minimum_depth_override,60:historical_scids,61:fulfill_attribution_data,64:pending_splice,79:pending_outbound_accountable,2:channel_type,4:holder_selected_channel_reserve_satoshis,6:holder_max_htlc_value_in_flight_msat,35:pending_outbound_skimmed_fees,37:holding_cell_skimmed_fees,39:pending_outbound_blinding_points,41:holding_cell_blinding_points,45:holder_commitment_point_next,47:holder_commitment_point_pending_next,63:holder_commitment_point_current,67:pending_outbound_held_htlc_flags,69:holding_cell_held_htlc_flags,70:has_0reserve,71:holder_commitment_point_previous_revoked,73:holder_commitment_point_last_revoked,75:inbound_committed_update_adds,77:holding_cell_accountable_flags alias=2:chan_type>2:channel_type,4:serialized_holder_selected_reserve>4:holder_selected_channel_reserve_satoshis,6:serialized_holder_htlc_max_in_flight>6:holder_max_htlc_value_in_flight_msat
+//@mutant skimmed_fees_of_pending_and_parked_htlcs_written_under_each_others_type
+    (35, pending_outbound_skimmed_fees, optional_vec),
+//@with
+    (35, holding_cell_skimmed_fees, optional_vec),
 //@mutant attribution_lists_of_inbound_and_outbound_htlcs_written_under_each_others_type
     (55, removed_htlc_attribution_data, optional_vec),
 //@with
     (55, fulfill_attribution_data, optional_vec),
 //@end
 //@extract lightning/src/ln/channel.rs :: impl ReadableArgs<(&'a ES, &'b SP, &'c ChannelTypeFeatures)> for FundedChannel<SP> :: fn read
-//@fields tlvread channel_tlvs_read only=0:announcement_sigs,1:minimum_depth,3:counterparty_selected_channel_reserve_satoshis,5:config,7:shutdown_scriptpubkey,8:blocked_monitor_updates,9:target_closing_feerate_sats_per_kw,10:monitor_pending_update_adds,11:monitor_pending_finalized_fulfills,12:monitor_pending_tx_signatures,13:channel_creation_height,15:preimages,17:announcement_sigs_state,19:latest_inbound_scid_alias,21:outbound_scid_alias,23:initial_channel_ready_event_emitted,25:user_id_high_opt,27:channel_keys_id,28:holder_max_accepted_htlcs,29:temporary_channel_id,31:channel_pending_event_emitted,38:is_batch_funding,43:malformed_htlcs,49:local_initiated_shutdown,51:is_manual_broadcast,53:funding_tx_broadcast_safe_event_emitted,55:removed_htlc_attribution_data,57:holding_cell_attribution_data,58:interactive_tx_signing_session,59:minimum_depth_override,60:historical_scids,61:fulfill_attribution_data,64:pending_splice,79:pending_outbound_accountable
+//@fields tlvread channel_tlvs_read only=0:announcement_sigs,1:minimum_depth,3:counterparty_selected_channel_reserve_satoshis,5:config,7:shutdown_scriptpubkey,8:blocked_monitor_updates,9:target_closing_feerate_sats_per_kw,10:monitor_pending_update_adds,11:monitor_pending_finalized_fulfills,12:monitor_pending_tx_signatures,13:channel_creation_height,15:preimages,17:announcement_sigs_state,19:latest_inbound_scid_alias,21:outbound_scid_alias,23:initial_channel_ready_event_emitted,25:user_id_high_opt,27:channel_keys_id,28:holder_max_accepted_htlcs,29:temporary_channel_id,31:channel_pending_event_emitted,38:is_batch_funding,43:malformed_htlcs,49:local_initiated_shutdown,51:is_manual_broadcast,53:funding_tx_broadcast_safe_event_emitted,55:removed_htlc_attribution_data,57:holding_cell_attribution_data,58:interactive_tx_signing_session,59:minimum_depth_override,60:historical_scids,61:fulfill_attribution_data,64:pending_splice,79:pending_outbound_accountable,2:channel_type,4:holder_selected_channel_reserve_satoshis,6:holder_max_htlc_value_in_flight_msat,35:pending_outbound_skimmed_fees,37:holding_cell_skimmed_fees,39:pending_outbound_blinding_points,41:holding_cell_blinding_points,45:holder_commitment_point_next,47:holder_commitment_point_pending_next,63:holder_commitment_point_current,67:pending_outbound_held_htlc_flags,69:holding_cell_held_htlc_flags,70:has_0reserve,71:holder_commitment_point_previous_revoked,73:holder_commitment_point_last_revoked,75:inbound_committed_update_adds,77:holding_cell_accountable_flags alias=70:_has_0reserve>70:has_0reserve,77:holding_cell_accountable>77:holding_cell_accountable_flags,35:pending_outbound_skimmed_fees_opt>35:pending_outbound_skimmed_fees,37:holding_cell_skimmed_fees_opt>37:holding_cell_skimmed_fees,39:pending_outbound_blinding_points_opt>39:pending_outbound_blinding_points,41:holding_cell_blinding_points_opt>41:holding_cell_blinding_points,45:holder_commitment_point_next_opt>45:holder_commitment_point_next,47:holder_commitment_point_pending_next_opt>47:holder_commitment_point_pending_next,63:holder_commitment_point_current_opt>63:holder_commitment_point_current,67:pending_outbound_held_htlc_flags_opt>67:pending_outbound_held_htlc_flags,69:holding_cell_held_htlc_flags_opt>69:holding_cell_held_htlc_flags,71:holder_commitment_point_previous_revoked_opt>71:holder_commitment_point_previous_revoked,73:holder_commitment_point_last_revoked_opt>73:holder_commitment_point_last_revoked,75:inbound_committed_update_adds_opt>75:inbound_committed_update_adds
 //@end
 pub proof fn lemma_channel_tlv_records_carry_the_same_fields_on_both_sides() ensures channel_tlvs_written() =~= channel_tlvs_read() {}
 //@extract lightning/src/chain/channelmonitor.rs :: fn write_chanmon_internal
